@@ -139,6 +139,18 @@ CHECKS = {
              'images are read with the real dfs and every delivered sector is attributed by fingerprint.',
         note='Data marks are recorded within the controller window of their ID.  CRC-16 collisions at home are counted '
              'as benign, never reported.'),
+    'C07': dict(
+        category='exploration', design_ref='DESIGN.md section 2, C07',
+        technique='sanitizer monitoring (ASan+UBSan+hardened libstdc++, NDEBUG and assertion builds) of structure-aware hostile inputs, with returned-from-main hook record, watchdog and RSS monitor',
+        text='Valid base images of all seven extensions (incl. CRC-valid but unusual flux recordings: other sector sizes, '
+             'wrong address fields, duplicate/surplus/1-based records, deleted marks) are mutated (header-biased edits, '
+             'truncation at every structure boundary +-1 and at 0..32 bytes, extreme length/offset/count fields, random '
+             'bytes, block operations, valid and hostile gzip wrappings) and run with fuzzed command lines (all '
+             'commands, drive numbers, names, wildcards, options, --verbose, second image, missing --file).  Every '
+             'execution is screened for signals, status outside {0,1,2}, missing RET record, sanitizer / assertion '
+             'reports, allocations above 256 MiB, hangs (confirmed by a 40 s re-run) and silent failures; a release-'
+             'build run adds a 512 MiB RSS monitor.',
+        note='ASan cannot see intra-object over-reads; environment faults (tmpfile, zlib memory) are out of scope.'),
 }
 
 PENDING_REASON = 'check not built yet in this revision of /verif (see DESIGN.md section 7 for the order of work)'
